@@ -66,3 +66,17 @@ def _multichar(case, res):
     names = case.get('names') or []
     msg = (res.oracle_fail or '') + (res.mismatch or '')
     return bool(case.get('byname')) and any(len(str(n)) > 1 for n in names) and 'rvs' in msg and 'raised' in msg
+
+
+@predicate('gh-named-variables')
+def _gh_named(case, res):
+    """PID_GH on a distribution whose variables have names."""
+    msg = (res.oracle_fail or '')
+    return case.get('cls') == 'PID_GH' and str(case.get('addr', '')).startswith('names') and 'raised ditException' in msg
+
+
+@predicate('rdr-source-order')
+def _rdr_order(case, res):
+    """I_rdr of a node with two or more multi-source members depends on the order of the sources."""
+    msg = (res.oracle_fail or '')
+    return case.get('cls') == 'PID_RDR' and case.get('ns') == 3 and msg.startswith('permuting the sources')
